@@ -380,7 +380,7 @@ Section Majority.
      frequently reported key, it has at least [thr] (and at least one) votes, and among equally
      frequent keys it has the highest head slot.  None is used iff no key has [thr] votes. *)
   Lemma maj_plurality : forall vs order thr,
-    (forall x y, key x = key y -> slot_of x = slot_of y) ->
+    (forall x y, In x vs -> In y vs -> key x = key y -> slot_of x = slot_of y) ->
     Permutation order (tbl vs) ->
     match maj_result slot_of thr order with
     | Some v => find (fun x => key x =? key v) vs = Some v
@@ -395,8 +395,9 @@ Section Majority.
     assert (Hpos : forall e, In e order -> (0 < snd (snd e))%Z).
     { intros e He. apply (tbl_pos vs). apply (Permutation_in _ Hperm). exact He. }
     pose proof (maj_result_spec key slot_of thr order Hpos) as H.
-    assert (Hent : forall v', In v' vs -> exists v0, key v0 = key v' /\ In (key v', (v0, votes key vs (key v'))) order).
+    assert (Hent : forall v', In v' vs -> exists v0, In v0 vs /\ key v0 = key v' /\ In (key v', (v0, votes key vs (key v'))) order).
     { intros v' Hin. destruct (in_find_some key vs v' Hin) as [v0 Hf]. exists v0.
+      split; [apply (find_some_votes key) in Hf; tauto|].
       split; [apply (find_some_votes key) in Hf; tauto|].
       apply (Permutation_in _ (Permutation_sym Hperm)). apply tbl_in. auto. }
     destruct (maj_result slot_of thr order) as [v|].
@@ -404,10 +405,10 @@ Section Majority.
       apply (Permutation_in _ Hperm) in Hin. apply tbl_in in Hin as [Hf ->].
       destruct (find_some_votes key _ _ _ Hf) as (H1 & <- & Hvin).
       repeat split; auto.
-      + destruct (Hent v' H) as [v0 [Hk Hin0]]. apply Hall in Hin0. tauto.
-      + intro E. destruct (Hent v' H) as [v0 [Hk Hin0]]. apply Hall in Hin0 as [_ Hs].
-        rewrite <- (Hks v0 v' Hk). apply Hs. exact E.
-    - intros v' Hin. destruct (Hent v' Hin) as [v0 [Hk Hin0]]. apply H in Hin0. exact Hin0.
+      + destruct (Hent v' H) as [v0 [Hv0 [Hk Hin0]]]. apply Hall in Hin0. tauto.
+      + intro E. destruct (Hent v' H) as [v0 [Hv0 [Hk Hin0]]]. apply Hall in Hin0 as [_ Hs].
+        rewrite <- (Hks v0 v' Hv0 H Hk). apply Hs. exact E.
+    - intros v' Hin. destruct (Hent v' Hin) as [v0 [Hv0 [Hk Hin0]]]. apply H in Hin0. exact Hin0.
   Qed.
 
   Lemma maj_uses_iff : forall vs order thr,
